@@ -433,3 +433,10 @@ M("C07", "exogenized-targets-not-logged", FS, "        input_data_array[logly_in
 M("C07", "exogenized-log-in-place", FS, "        input_data_array = input_data_array.copy()\n", "", "C07-R4")
 M("C07", "endogenized-writeback-row-major", FS, "        ___.T[incidence_v.T] += v_endogenized", "        ___[incidence_v] += v_endogenized", "C07-R4")
 M("C07", "endogenized-std-row-major", FS, "            std_v_endogenized = std_v_array.T[incidence_v.T, ]", "            std_v_endogenized = std_v_array[incidence_v, ]", "C07-R4")
+M("C12", "select-as-tuple", "series/_conversions.py", "        select = list(select)", "        select = tuple(select)", "C12-R3")
+T("C12", "twin-select-asarray", "series/_conversions.py", "        select = list(select)", "        select = _np.asarray(select)")
+LO = "series/_ell_one.py"
+M("C14", "lonf-variants-dropped", LO, "    trend_series = Series(num_variants=num_variants, start=start_period, values=trend_data_variants, )", "    trend_series = Series(start=start_period, values=trend_data_variants, )", "C14-R1")
+M("C14", "lonf-lists-crossed", LO, "        trend_data_variants.append(trend_data, )\n        gap_data_variants.append(gap_data, )", "        trend_data_variants.append(gap_data, )\n        gap_data_variants.append(trend_data, )", "C14-R1")
+M("C14", "lonf-return-swapped", LO, "    return trend_series, gap_series,", "    return gap_series, trend_series,", "C14-R1")
+T("C14", "twin-lonf-num-variants-inline", LO, "    num_variants = len(trend_data_variants)\n", "    num_variants = len(gap_data_variants)\n")
